@@ -11,6 +11,7 @@ import (
 	"runtime"
 	"strings"
 	"sync"
+	"sync/atomic"
 	"time"
 
 	evalfilter "github.com/skx/evalfilter/v2"
@@ -588,6 +589,9 @@ func c20Orders(c *ev.Ctx) {
 // evaluator of the new script (holding the same variables); after a refused one it must
 // keep behaving like the old script; Dump must work either way; the prepared program
 // must verify (C18's verifier) in both cases.
+// rePrepareStuck is set once a call after a refused Prepare was found parked on the evaluator's lock.
+var rePrepareStuck int32
+
 func c20RePrepare(c *ev.Ctx) {
 	refused := []string{"1 += 2;", "!true += 1;", "3 = 4;", "x = (1 + ;", "return \"open;", "f() -= 1;", "if (a) { b = 1;", "local q;", "x = 1 @ 2;", "return a ? b ? 1 : 2 : 3;"}
 	n := c.Pick(400, 15000)
@@ -660,6 +664,61 @@ func c20RePrepare(c *ev.Ctx) {
 		current := scriptB
 		if perr != nil {
 			current = scriptA // the old program must stay in force
+			// a script that was refused is refused again, however often Prepare is asked, and the
+			// evaluator still answers through Run. (Both take the evaluator's lock: they are made
+			// from a goroutine, and a call that does not come back is judged by where it is parked.)
+			if atomic.LoadInt32(&rePrepareStuck) != 0 {
+				return // already reported once in this run: every further case would wait in vain
+			}
+			done := make(chan string, 1)
+			go func() {
+				for again := 2; again <= 3; again++ {
+					var perr2 error
+					var pan2 interface{}
+					func() {
+						defer func() { pan2 = recover() }()
+						if noOpt {
+							perr2 = a.E.Prepare([]byte{evalfilter.NoOptimize})
+						} else {
+							perr2 = a.E.Prepare()
+						}
+					}()
+					if pan2 != nil {
+						done <- fmt.Sprintf("panic in Prepare number %d of a refused script: %v", again, pan2)
+						return
+					}
+					if perr2 == nil {
+						done <- fmt.Sprintf("Prepare number %d of a script that was refused before (%v) succeeds", again, perr)
+						return
+					}
+				}
+				if _, _, p, m := a.RunBool(obj); p {
+					done <- "Run panics after a refused Prepare: " + m
+					return
+				}
+				done <- ""
+			}()
+			select {
+			case msg := <-done:
+				if msg != "" {
+					fail(msg)
+					return
+				}
+			case <-time.After(60 * time.Second):
+				if !atomic.CompareAndSwapInt32(&rePrepareStuck, 0, 1) {
+					return
+				}
+				buf := make([]byte, 8<<20)
+				buf = buf[:runtime.Stack(buf, true)]
+				for _, g := range strings.Split(string(buf), "\n\n") {
+					if strings.Contains(g, "sync.(*Mutex).Lock") && (strings.Contains(g, "evalfilter/v2.(*Eval).Prepare(") || strings.Contains(g, "evalfilter/v2.(*Eval).Run(")) && strings.Contains(g, "c20RePrepare") {
+						fail("after a refused Prepare the evaluator's lock is never released: a later Prepare / Run is parked in Mutex.Lock\n" + clip(g, 1200))
+						return
+					}
+				}
+				c.Inconclusive("re-Prepare stream: a call made after a refused Prepare has not returned within 60 s and is not parked on the evaluator's lock")
+				return
+			}
 		}
 		// Dump must not panic
 		func() {
